@@ -212,16 +212,6 @@ def FromPairs (D : List Delim) (i : Int) (P : List Brk) : Prop :=
   ∀ b ∈ P, ∃ (o : Nat) (d de : Delim), i < (o : Int) ∧ D[o]? = some d ∧ 0 ≤ d.end_ ∧ D[d.end_.toNat]? = some de
     ∧ (b.1 : Int) = d.token ∧ (b.2.1 : Int) = de.token
 
-theorem _root_.MdIt.C02f.PostHyp.tok_lt {D n} (hD : PostHyp D n) (j1 j2 : Nat) (d1 d2 : Delim) (h1 : D[j1]? = some d1) (h2 : D[j2]? = some d2)
-    (hlt : d1.token < d2.token) : j1 < j2 := by
-  rcases Nat.lt_or_ge j1 j2 with h | h
-  · exact h
-  · exfalso
-    rcases Nat.lt_or_ge j2 j1 with h' | h'
-    · have := hD.tokInc j2 j1 d2 d1 h2 h1 h'; omega
-    · have : j1 = j2 := by omega
-      subst this; rw [h1] at h2; cases h2; omega
-
 /-- one delimiter pair becomes one described bracket pair -/
 theorem desc_pair {D n i ts P} (hD : PostHyp D n) (hlam : C02e.Laminar D) (hinv : PostInv D n i ts) (hdesc : Desc ts P) (hsrc : FromPairs D i P)
     (hi0 : 0 ≤ i) (sd ed : Delim) (hsd : D[i.toNat]? = some sd) (he : 0 ≤ sd.end_) (hed : D[sd.end_.toNat]? = some ed)
